@@ -6,6 +6,7 @@ Reads  $TRACKPY_REPO/trackpy/linking/utils.py  and  $TRACKPY_REPO/trackpy/linkin
 
     utils.py     coords_from_df, coords_from_df_iter          -> py_coords_from_df, py_coords_from_df_iter
     linking.py   link_iter, link (alias link_df), link_df_iter -> py_link_iter, py_link, py_link_df_iter
+                 link once more, with the sort of the rows as an oracle -> py_link_srt (py_link = its stable instance)
 
 as shallow, state-passing Gallina over the vocabulary of coq/Model/PyCoords.v (types, conventions
 and the meaning of every primitive: that file).  Proofs/CoordsGen.v proves the generated functions
@@ -90,7 +91,7 @@ RESERVED = {'as', 'at', 'in', 'if', 'then', 'else', 'let', 'fun', 'match', 'with
             'rbind', 'gen', 'map', 'Some', 'None', 'true', 'false', 'list', 'option', 'bool', 'Z', 'nat', 'string', 'unit',
             'negb', 'fst', 'snd', 'item', 'coords', 'cell', 'row', 'DataFrame', 'Series', 'length', 'combine', 'seq', 'pt',
             'yielded_', 'IArr', 'ITup', 'assoc', 'upd', 'rle', 'exn', 'mapM', 'filter', 'app', 'nil', 'cons', 'id', 'metric',
-            'mem', 'src', 'live', 'now'}
+            'mem', 'src', 'live', 'now', 'srt', 'sort_oracle', 'stable_sort'}
 
 
 def cq(n):
@@ -184,7 +185,7 @@ SIGS = {
                       params=[('coords_iter', ('gen', 'item'))], L=True, kind='gen', ytype=('pair', 'optZ', 'listZ')),
     'link': dict(args=['f', 'search_range', 'pos_columns', 't_column'], defaults=['None', "'frame'"], kwarg='kwargs',
                  params=[('f', 'df'), ('pos_columns', 'optnames'), ('t_column', 'str')], L=True, kind='fun', rtype='df',
-                 hints={'ids': 'listZ'}),
+                 hints={'ids': 'listZ'}, sorts=True),
     'link_df_iter': dict(args=['f_iter', 'search_range', 'pos_columns', 't_column'], defaults=['None', "'frame'"], kwarg='kwargs',
                          params=[('f_iter', ('gen', 'df')), ('pos_columns', 'optnames'), ('t_column', 'str')], L=True,
                          kind='gen', ytype='df'),
@@ -192,9 +193,11 @@ SIGS = {
 
 
 class Fn:
-    def __init__(self, fdef, sig, loops_out):
+    def __init__(self, fdef, sig, loops_out, srt=False):
         self.f = fdef
         self.name = fdef.name
+        self.srt = srt         # True: the variant py_<name>_srt, pandas_sort is the oracle `srt : sort_oracle`
+        self.usesSort = False
         self.sig = sig
         self.isgen = sig['kind'] == 'gen'
         self.env = {}          # python name -> (coq term, type)
@@ -600,7 +603,9 @@ class Fn:
                 fail(s, 'pandas_sort of a %s' % (td,))
             self.need_owned(s, v.args[0].id)
             head, close = self.flush(ind)
-            return head + '%srbind (pandas_sort_inplace %s %s) (fun %s =>\n' % (ind, d, c, d) + go() + ')' + close
+            self.usesSort = True
+            prim = 'pandas_sort_inplace_by srt' if self.srt else 'pandas_sort_inplace'
+            return head + '%srbind (%s %s %s) (fun %s =>\n' % (ind, prim, d, c, d) + go() + ')' + close
         if isinstance(v, ast.Call) and isinstance(v.func, ast.Attribute) and isinstance(v.func.value, ast.Name) and not v.keywords:
             o = v.func.value.id
             so, to = self.var(s, o)
@@ -932,8 +937,11 @@ class Fn:
             rty = 'res ' + cty(self.sig['rtype'], 'arg')
         if self.sig['L'] != self.usesL:
             fail(self.f, '%s %s the Linker' % (self.name, 'does not use' if self.sig['L'] else 'uses'))
-        binders = ('(L : LinkerI) ' if self.sig['L'] else '') + ''.join('(%s : %s) ' % (cq(n), cty(t)) for n, t in self.sig['params'])
-        return 'Definition py_%s %s: %s :=\n%s.\n' % (self.name, binders, rty, main)
+        if bool(self.sig.get('sorts')) != self.usesSort:
+            fail(self.f, '%s %s pandas_sort' % (self.name, 'does not call' if self.sig.get('sorts') else 'calls'))
+        binders = ('(srt : sort_oracle) ' if self.srt else '') + ('(L : LinkerI) ' if self.sig['L'] else '') + \
+            ''.join('(%s : %s) ' % (cq(n), cty(t)) for n, t in self.sig['params'])
+        return 'Definition py_%s%s %s: %s :=\n%s.\n' % (self.name, '_srt' if self.srt else '', binders, rty, main)
 
 
 def check_sig(fdef, sig):
@@ -1006,6 +1014,8 @@ HEADER = """(* GENERATED by tools/py2coq_coords.py from trackpy/linking/utils.py
    of the pandas / numpy / itertools primitives; see also the translator's docstring).
    Extra parameter:  L : LinkerI   the class Linker applied to (search_range, **kwargs); those two Python
                      parameters are only forwarded to it (checked) and are dropped.
+   Extra parameter of py_link_srt:  srt : sort_oracle   what pandas_sort(f, t_column, inplace=True) does to the rows
+                     (pandas' default sort is not stable); py_link is the same text with the stable sort.
    Generators are eager (res (list _)); `yield e` appends to yielded_.
    Pinned defaults: link(pos_columns=None, t_column='frame'), link_df_iter(pos_columns=None, t_column='frame'). *)
 From Coq Require Import String ZArith List Bool.
@@ -1047,7 +1057,21 @@ def translate(repo):
         fn = Fn(defs[name], sig, loops)
         main = fn.translate()
         out.append('(* ===== %s (%s line %d) ===== *)\n' % (name, where, defs[name].lineno) + '\n'.join(loops + [main]))
-    out.append('(* link_df = link *)\nDefinition py_link_df := py_link.\n')
+        if sig.get('sorts'):
+            # the same statements once more, pandas_sort read as the oracle `srt` (pandas' default sort_values is
+            # not stable): py_<name>_srt.  Everything but that one primitive must come out the same.
+            loops2 = []
+            main2 = Fn(defs[name], sig, loops2, srt=True).translate()
+            want = main.replace('Definition py_%s (' % name, 'Definition py_%s_srt (srt : sort_oracle) (' % name, 1) \
+                       .replace('(pandas_sort_inplace ', '(pandas_sort_inplace_by srt ')
+            if loops2 != loops or main2 != want or main2 == main:
+                raise TranslationError('%s: the translation with the sort oracle differs from the one with the stable sort '
+                                       'in more than the sort' % name)
+            out.append('(* ===== %s once more: pandas_sort(.., inplace=True) is DataFrame.sort_values with pandas\' default\n'
+                       '   kind (quicksort, NOT stable); here it is the oracle srt (Model/PyCoords.v: sort_oracle), of which\n'
+                       '   the theorems assume only sort_ok (Model/SortOracle.v).  py_%s above is the instance srt := stable_sort\n'
+                       '   (by conversion: Proofs/CoordsGen2.v py_%s_is_stable_instance). ===== *)\n' % (name, name, name) + main2)
+    out.append('(* link_df = link *)\nDefinition py_link_df := py_link.\nDefinition py_link_df_srt := py_link_srt.\n')
     return HEADER + '\n' + '\n'.join(out)
 
 
